@@ -1,4 +1,97 @@
-import CssVerif.Model.Sheet
+/-
+C07 — Rule order and containment stay valid under any edit history.
+
+The sheet model (`Model/Sheet.lean`) transcribes insertRule / add / deleteRule / encoding /
+namespaces[...] / cssText= as coded (variant `fx = true` = /repo today, after the repairs recorded
+in known_findings.json; `fx = false` = the in-order placement of the pinned snapshot).
+`Valid` is the statement's ordering condition.  Operations are the API's: `add()` carries no index
+(`OpWF`).
+-/
+import CssVerif.Proofs.Sheet
 namespace CssVerif.C07
-theorem placeholder : True := trivial
+open CssVerif CssVerif.Sheet
+
+theorem valid_init : Valid [] := valid_nil
+
+/-- every operation keeps the rule list valid, whether it succeeds or is rejected -/
+theorem valid_step (s : Sheet) (hv : Valid s) (op : Op) (hwf : OpWF op) : Valid (step true s op).1 :=
+  step_valid s hv op hwf
+
+/-- a rejected call leaves the list unchanged -/
+theorem reject_unchanged (s : Sheet) (op : Op) (e : Err) (h : (step true s op).2 = .raised e) :
+    (step true s op).1 = s := step_reject true s op e h
+
+/-- every sheet reachable from the empty sheet by any finite history is valid -/
+theorem reachable_valid (ops : List Op) (hwf : ∀ op ∈ ops, OpWF op) :
+    Valid (ops.foldl (fun s op => (step true s op).1) []) := Sheet.reachable_valid ops hwf
+
+/-- whatever text is assigned or parsed, the parse-time ordering machine only ever builds valid lists -/
+theorem parse_valid (rs : List Rule) : Valid (parseSheet true rs) := parseSheet_valid rs
+
+/-- **re-parse** (partial: sheets without @namespace and @variables rules — the namespace clean-up and
+the legacy @variables level are not covered by this theorem; they are covered by the re-parse
+oracle of harness/props/c07.py): a valid list goes through the parser's ordering machine unchanged -/
+theorem reparse_same_partial (s : Sheet) (hv : Valid s) (hp : plain s) : parseSheet true s = s :=
+  (reparse_same_plain s hv hp).1
+
+/-- corollary: every reachable plain sheet re-parses to itself -/
+theorem reachable_reparse (ops : List Op) (hwf : ∀ op ∈ ops, OpWF op)
+    (hp : plain (ops.foldl (fun s op => (step true s op).1) [])) :
+    parseSheet true (ops.foldl (fun s op => (step true s op).1) []) =
+      ops.foldl (fun s op => (step true s op).1) [] :=
+  reparse_same_partial _ (reachable_valid ops hwf) hp
+
+/-! ### containers: @media / @page only ever hold kinds they allow -/
+
+theorem container_insert_allowed (forbid kids : List Kind) (k : Kind) (i : Option Nat)
+    (h : ∀ x ∈ kids, x ∉ forbid) : ∀ x ∈ (containerInsert forbid kids k i).1, x ∉ forbid := by
+  unfold containerInsert
+  simp only
+  split
+  · exact h
+  · split
+    · exact h
+    · rename_i _ hk
+      intro x hx
+      rcases List.mem_append.mp hx with h1 | h1
+      · exact h x (List.mem_of_mem_take h1)
+      · rcases List.mem_cons.mp h1 with rfl | h2
+        · simpa using hk
+        · exact h x (List.mem_of_mem_drop h2)
+
+theorem container_delete_allowed (forbid kids : List Kind) (i : Int)
+    (h : ∀ x ∈ kids, x ∉ forbid) : ∀ x ∈ (containerDelete kids i).1, x ∉ forbid := by
+  unfold containerDelete
+  split
+  · exact h
+  · intro x hx
+    exact h x ((List.eraseIdx_sublist _ _).subset hx)
+
+theorem container_reject_unchanged (forbid kids : List Kind) (k : Kind) (i : Option Nat) (e : Err)
+    (h : (containerInsert forbid kids k i).2 = .raised e) : (containerInsert forbid kids k i).1 = kids := by
+  unfold containerInsert at h ⊢
+  simp only at h ⊢
+  split
+  · rfl
+  · split
+    · rfl
+    · rename_i h1 h2
+      have h2' : ¬ k ∈ forbid := by simpa using h2
+      simp [h1, h2'] at h
+
+/-! ### the defect of the pinned snapshot, as a kernel-checked witness on the old placement -/
+
+/-- comment, @import, then `add('@namespace …')` with the snapshot's placement: not valid -/
+theorem snapshot_counterexample :
+    ¬ Valid (step false [⟨.comment, 0, 0, []⟩, ⟨.import, 0, 0, []⟩]
+      (.insert ⟨.namespace, 1, 1, []⟩ none true)).1 := by decide
+
+/-- the same history with the repaired placement -/
+example : (step true [⟨.comment, 0, 0, []⟩, ⟨.import, 0, 0, []⟩]
+      (.insert ⟨.namespace, 1, 1, []⟩ none true)).1.map (·.kind) = [.comment, .import, .namespace] := by decide
+
+/-! non-vacuity: a non-trivial reachable valid sheet -/
+example : Valid [⟨.charset, 1, 0, []⟩, ⟨.comment, 0, 0, []⟩, ⟨.import, 0, 0, []⟩, ⟨.namespace, 1, 1, []⟩,
+    ⟨.style, 0, 0, [1]⟩, ⟨.unknown, 0, 0, []⟩, ⟨.media, 0, 0, []⟩] := by decide
+
 end CssVerif.C07
